@@ -21,21 +21,21 @@ def cases(tier, seed):
     buf = list(common.buffer_scope(lvl))
     plan = list(common.plan_scope(lvl))
     if tier != "thorough":
-        base = base[::2]
-        buf = buf[::3]
-        plan = plan[::3]
+        base = common.thin(base, 2)
+        buf = common.thin(buf, 3)
+        plan = common.thin(plan, 3)
     for sc, c in common.add_algs(base + buf + plan,
                                  lambda c: common.shipped(c, lvl, "diag")):
         c = dict(c)
         c["delay"] = {"mode": "choice", "arity": 3}
         out.append((sc + "/shipped", c))
-    bat = list(common.batch_scope(lvl))[::4 if tier != "thorough" else 1]
+    bat = common.thin(common.batch_scope(lvl), 4 if tier != "thorough" else 1)
     for sc, c in common.add_algs(bat, lambda c: common.batch_algs(c, lvl)):
         out.append((sc, c))
     for sc, c in common.add_algs(common.wide_scope(lvl),
                                  lambda c: common.wide_algs(c, lvl)):
         out.append((sc, dict(c, delay={"mode": "choice", "arity": 3})))
-    adv = base[::5] if tier != "thorough" else base[::6]
+    adv = common.thin(base, 5) if tier != "thorough" else common.thin(base, 6)
     for sc, c in adv:
         for alg in ({"kind": "advqueue"}, {"kind": "advbatch", "p": 2,
                                            "min": 1}):
@@ -59,7 +59,7 @@ def run(rep, tier, seed):
         every = 12 if tier != "thorough" else 2
         cs2 = []
         for k, (sc, c) in enumerate(cs):
-            if c.get("delay") and k % every:
+            if c.get("delay") and not common.keep(k, every):
                 c = dict(c)
                 c.pop("delay")
             cs2.append((sc, c))
